@@ -361,6 +361,9 @@ type sampling struct {
 	verts      []int    // ConnectedComponent arguments
 	bounds     []int    // maxLength values for NumberOfInducedCycles (nil: not called)
 	pathBounds []int    // maxLength values for NumberOfInducedPaths (nil: not called)
+	// expensive extra bounds, tried on the sparse representation of the identity labelling only
+	heavyBounds, heavyPathBounds []int
+	identity                     bool
 }
 
 func (t *gcase) detail(more ...interface{}) map[string]interface{} {
@@ -621,6 +624,16 @@ func (t *gcase) run() {
 	mls, pls := t.bounds(), t.bounds()
 	if t.large != nil {
 		mls, pls = t.large.bounds, t.large.pathBounds
+		if t.rep == "sparse" && t.large.identity {
+			mls = append(append([]int{}, mls...), t.large.heavyBounds...)
+			pls = append(append([]int{}, pls...), t.large.heavyPathBounds...)
+			if len(mls) == 0 {
+				mls = nil
+			}
+			if len(pls) == 0 {
+				pls = nil
+			}
+		}
 	}
 	if mls == nil && pls == nil {
 		c.Obs("skipped:induced_counters_over_budget", 1)
@@ -780,6 +793,7 @@ func runBase(c *engine.Ctx, g *rg.G, p *plan) {
 			g6 = p.largeID + "/" + p.permKind[k]
 			wit = "graph=" + g6
 			smp = p.sampling(k, h, wh)
+			smp.identity = perm == nil
 		}
 		for _, rep := range p.reps[k] {
 			key := rep + "|" + g6
